@@ -47,7 +47,8 @@ def user_class(g, rng, cov, base):
     cov.hit("user-subclass:" + base.__name__)
     key = (id(g), base.__name__)
     if key not in _SUBCLASSES:
-        _SUBCLASSES[key] = type("My" + base.__name__, (base,), {})
+        # (every other one defines its truth value and is falsy: a node is a node whatever bool(node) says)
+        _SUBCLASSES[key] = type("My" + base.__name__, (base,), {} if len(_SUBCLASSES) % 2 else {"__len__": lambda self: 0})
     return _SUBCLASSES[key]
 
 
@@ -172,6 +173,13 @@ def gen_ir(g, rng, cov, n_modules=None, entry_later=False, with_aux=True):
                             cov.hit("attribute-unknown-number")
                         if rng.random() < 0.4 and getattr(cov, "_last_attrs", None):
                             attrs = set(cov._last_attrs)            # an equal attribute set on another expression (never the same object)
+                        if attrs and rng.random() < 0.25:
+                            # a KNOWN attribute given by its number (the constructor's argument type allows the protobuf value)
+                            a0 = next(iter(attrs))
+                            if not isinstance(a0, int):
+                                attrs.discard(a0)
+                                attrs.add(a0.value)
+                                cov.hit("attribute-known-by-number")
                         if attrs:
                             cov.hit("attribute-known")
                             cov._last_attrs = set(attrs)
